@@ -3,11 +3,12 @@
 //! Record, plus direct uses of the user types Rat / Fp / Wrapping<i64> in generic routines.
 //! Case language: see coq/theories/Run/RunC19.v.
 //!   (19 1 w tag n) (19 2 w tag) (19 3 w tag op a b) (19 4 tag op abits bbits)
-//!   (19 5 ty A B C s) (19 6 ty X Y s) (19 7 ty n)
+//!   (19 5 ty A B C s) (19 6 ty X Y s) (19 7 ty n) (19 8 ty op (an ad) (bn bd))
+//!   (19 9 ty op ka a kb b)
 use crate::guarded;
 use crate::num::{Enc, Fp, Rat};
 use crate::sx::*;
-use easy_ml::differentiation::{Primitive, Record, Trace};
+use easy_ml::differentiation::{Primitive, Record, Trace, WengertList};
 use easy_ml::matrices::Matrix;
 use easy_ml::numeric::{FromUsize, Numeric, NumericRef, ZeroOne};
 use easy_ml::tensors::Tensor;
@@ -211,7 +212,7 @@ pub fn run(args: &[Sx]) -> Sx {
             };
             float_case(tag, o, a, b)
         }
-        5 | 6 | 7 if args.len() >= 3 => {
+        5..=9 if args.len() >= 3 => {
             let Some(ty) = args[1].i64() else { return bad_case() };
             match ty {
                 0 => user_case::<Rat>(op, &args[2..]),
@@ -447,6 +448,110 @@ where
                 opt(<Record<T>>::from_usize(n).map(sr)),
             ])
         }
+        8 if args.len() == 3 => {
+            let (Some(o), Some(a), Some(b)) = (args[0].i64(), dec_trace::<T>(&args[1]), dec_trace::<T>(&args[2]))
+            else {
+                return bad_case();
+            };
+            let st = |r: Option<Trace<T>>| match r {
+                Some(t) => l(vec![t.number.enc(), t.derivative.enc()]),
+                None => panicked(),
+            };
+            let (a2, b2) = (a.clone(), b.clone());
+            let rs: Vec<Sx> = match o {
+                0 => vec![st(guarded(|| &a + &b)), st(guarded(|| a.clone() + b.clone())),
+                          st(guarded(|| a.clone() + &b)), st(guarded(|| &a + b.clone()))],
+                1 => vec![st(guarded(|| &a - &b)), st(guarded(|| a.clone() - b.clone())),
+                          st(guarded(|| a.clone() - &b)), st(guarded(|| &a - b.clone()))],
+                2 => vec![st(guarded(|| &a * &b)), st(guarded(|| a.clone() * b.clone())),
+                          st(guarded(|| a.clone() * &b)), st(guarded(|| &a * b.clone()))],
+                3 => vec![st(guarded(|| &a / &b)), st(guarded(|| a.clone() / b.clone())),
+                          st(guarded(|| a.clone() / &b)), st(guarded(|| &a / b.clone()))],
+                4 => vec![st(guarded(|| -&a2)), st(guarded(|| -a2.clone()))],
+                _ => return bad_case(),
+            };
+            let _ = b2;
+            for (i, r) in rs.iter().enumerate() {
+                if *r != rs[0] {
+                    return inconsistent(1980 + i as i64);
+                }
+            }
+            rs.into_iter().next().unwrap()
+        }
+        9 if args.len() == 5 => {
+            let (Some(o), Some(ka), Some(a), Some(kb), Some(b)) =
+                (args[0].i64(), args[1].i64(), T::dec(&args[2]), args[3].i64(), T::dec(&args[4]))
+            else {
+                return bad_case();
+            };
+            if !(0..=4).contains(&o) || !(0..=2).contains(&ka) || !(0..=2).contains(&kb) {
+                return bad_case();
+            }
+            let forms: &[i64] = if o == 4 { &[0, 1] } else { &[0, 1, 2, 3] };
+            let rs: Vec<Sx> = forms.iter().map(|f| record_form::<T>(o, ka, &a, kb, &b, *f)).collect();
+            for (i, r) in rs.iter().enumerate() {
+                if *r != rs[0] {
+                    return inconsistent(1990 + i as i64);
+                }
+            }
+            rs.into_iter().next().unwrap()
+        }
         _ => bad_case(),
+    }
+}
+
+fn dec_trace<T: Enc + Primitive>(s: &Sx) -> Option<Trace<T>> {
+    let v = s.list()?;
+    if v.len() != 2 {
+        return None;
+    }
+    Some(Trace { number: T::dec(&v[0])?, derivative: T::dec(&v[1])? })
+}
+
+/// One operand form of a Record operator on fresh tapes: form 0 `&a op &b`, 1 `a op b`,
+/// 2 `a op &b`, 3 `&a op b`; for negation form 0 `-&a`, 1 `-a`.
+fn record_form<T>(o: i64, ka: i64, a: &T, kb: i64, b: &T, form: i64) -> Sx
+where
+    T: Numeric + Primitive + Enc + PartialEq + 'static,
+    for<'a> &'a T: NumericRef<T>,
+{
+    let tape_a = WengertList::new();
+    let tape_b = WengertList::new();
+    let mk = |k: i64, x: &T| match k {
+        0 => Record::constant(x.clone()),
+        1 => Record::variable(x.clone(), &tape_a),
+        _ => Record::variable(x.clone(), &tape_b),
+    };
+    let ra = mk(ka, a);
+    let rb = mk(kb, b);
+    let r: Option<Record<T>> = guarded(|| match (o, form) {
+        (0, 0) => &ra + &rb, (0, 1) => ra.clone() + rb.clone(), (0, 2) => ra.clone() + &rb, (0, _) => &ra + rb.clone(),
+        (1, 0) => &ra - &rb, (1, 1) => ra.clone() - rb.clone(), (1, 2) => ra.clone() - &rb, (1, _) => &ra - rb.clone(),
+        (2, 0) => &ra * &rb, (2, 1) => ra.clone() * rb.clone(), (2, 2) => ra.clone() * &rb, (2, _) => &ra * rb.clone(),
+        (3, 0) => &ra / &rb, (3, 1) => ra.clone() / rb.clone(), (3, 2) => ra.clone() / &rb, (3, _) => &ra / rb.clone(),
+        (_, 0) => -&ra,
+        (_, _) => -ra.clone(),
+    });
+    match r {
+        None => panicked(),
+        Some(r) => {
+            let d = |k: i64, x: &Record<T>| -> Sx {
+                if r.history().is_none() || k == 0 {
+                    return nil();
+                }
+                match guarded(|| r.derivatives().at(x)) {
+                    Some(v) => l(vec![v.enc()]),
+                    None => l(vec![z(-1)]),
+                }
+            };
+            let kb_eff = if o == 4 { 0 } else { kb };
+            ok(l(vec![
+                r.number.enc(),
+                opt(r.history().map(|_| z(1))),
+                z(r.index),
+                d(ka, &ra),
+                d(kb_eff, &rb),
+            ]))
+        }
     }
 }
